@@ -32,6 +32,7 @@ import (
 	"strconv"
 	"strings"
 	"sync"
+	"sync/atomic"
 	"syscall"
 	"time"
 
@@ -692,7 +693,7 @@ func (b *builder) trickleFamily(i int) *scenario {
 		timeout: timeout, nparts: map[string]int{"t": 1}, faults: map[tpKey][]fault{}, closeAt: -1,
 		linger: timeout + lingerSlack, trickle: timeout / 5}
 	var calls []callSpec
-	n := int((lingerSlack + 6*timeout) / sc.trickle)
+	n := int(4 * (lingerSlack + timeout) / sc.trickle) // wall time of the trickle: 4 × linger, i.e. ≥ 2 × linger on the logical clock
 	for k := 0; k < n; k++ {
 		b.nextC++
 		calls = append(calls, callSpec{id: b.nextC, msgs: []msgSpec{b.mkMsg(40+r.Intn(8), "", 0, false)}})
@@ -714,7 +715,7 @@ func (b *builder) trickleFamily(i int) *scenario {
 
 // lingerSlack: how late after BatchTimeout the timer goroutine may get to close the batch (scheduling, the partition
 // mutex) before the run counts it as "not closed BatchTimeout after it was opened"
-const lingerSlack = 120 * time.Millisecond
+const lingerSlack = 60 * time.Millisecond
 
 // tombstones: batches in which a message with a nil Value (a tombstone) or a nil Key follows one that has both, and
 // the other way round; also empty-but-not-nil keys and values.  What reaches the broker must be the message as given:
@@ -1040,13 +1041,33 @@ func run(sc *scenario, out *bufio.Writer) {
 	var dumpMu sync.Mutex
 	var dump func(why string) // set below, once the calls exist
 	completed := map[string]bool{}
-	tickAt := map[int]int64{} // timed runs: recorder sequence number of a PW.NewBatch / PW.Add / B.TimerFire event -> µs since start
-	t0run := time.Now()
+	// timed runs: recorder sequence number of a PW.NewBatch / PW.Add / B.TimerFire event -> reading of the run's clock.
+	// The clock is a LOGICAL one: a goroutine of this process adds 500 (µs) after every time.Sleep(500µs) it completes.
+	// Without load it runs at or somewhat below real time; when the process is starved (other checks running on the
+	// machine) it slows down together with the library's timer goroutines, so "BatchTimeout + slack on this clock" is
+	// a bound the scheduler cannot break by merely being slow.
+	tickAt := map[int]int64{}
+	var lclock int64
+	if sc.linger > 0 {
+		stopClock := make(chan struct{})
+		defer close(stopClock)
+		go func() {
+			for {
+				select {
+				case <-stopClock:
+					return
+				default:
+				}
+				time.Sleep(500 * time.Microsecond)
+				atomic.AddInt64(&lclock, 500)
+			}
+		}()
+	}
 	kafka.VerifSetSink(func(e kafka.VerifEvent) {
 		now := time.Now()
 		if sc.linger > 0 && (e.Kind == "PW.NewBatch" || e.Kind == "PW.Add" || e.Kind == "B.TimerFire") {
 			tmu.Lock()
-			tickAt[e.Seq] = now.Sub(t0run).Microseconds()
+			tickAt[e.Seq] = atomic.LoadInt64(&lclock)
 			tmu.Unlock()
 		}
 		switch e.Kind {
